@@ -94,13 +94,22 @@ def _run(job):
             ctxs = []
             for m in insts:
                 ctx0 = None
+                if job.get("post") == "slow":
+                    from mlxsa.absint.engine import Ctx
+                    from mlxsa.absint.domain import G
+                    G.reset()
+                    ctx0 = Ctx(f, job["model"])
+                    ctx0.mark_calls = {"slow::positive_digit_comp": "digit_comp", "slow::negative_digit_comp": "digit_comp"}
+                    ctx0.keep_results = {"slow::scientific_exponent": "scientific_exponent"}
                 if job.get("post") == "cutoff":
                     from mlxsa.absint.engine import Ctx
                     from mlxsa.absint.domain import G
                     G.reset()
                     ctx0 = Ctx(f, job["model"])
                     ctx0.cmp_log = []
-                ctx = run.analyze_fn(f, m, job["model"], pre=_PRE.get(job.get("pre")), keep_paths=job.get("post") in ("cutoff",), ctx=ctx0)
+                ctx = run.analyze_fn(f, m, job["model"], pre=_PRE.get(job.get("pre")), keep_paths=job.get("post") in ("cutoff", "slow"), ctx=ctx0)
+                if job.get("post") == "slow":
+                    run.slow_postconditions(ctx, m, f)
                 # post-conditions read atoms of the exit states: evaluate them before the next analysis resets the atom tables
                 if job.get("post") == "truncation":
                     run.truncation_postconditions(ctx, m)
